@@ -200,7 +200,7 @@ func (rc *RunCtx) cancelFamily(u *ExecUniverse) {
 			ref := u.Cases[r.id-1]
 			human := u.human(ref) + fmt.Sprintf(" lax=%v", ref.Lax)
 			if !ok {
-				rc.infra("cancel record %d (%s) rejected with %s but a second execution was not", r.id, human, r.cl)
+				rc.unreproduced("cancel record %d (%s) rejected with %s", r.id, human, r.cl)
 				continue
 			}
 			// find one offending k for the human-readable line
